@@ -448,8 +448,92 @@ func c13Scn(cs c13Case, bound int) *Scn {
 	}}
 }
 
+// c13DeletingScn: the connection arrives while the peer is being deleted (or the server
+// closed): DeletePeer/Close is called j steps after the remote started to connect. Whatever the
+// order, the connection must end up closed by corebgp (served first or not).
+func c13DeletingScn(passive bool, api string, j, bound int) *Scn {
+	name := fmt.Sprintf("deleting/passive=%v/%s/step+%d", passive, api, j)
+	return &Scn{Name: name, Bound: bound, Run: func(ch vrt.Chooser, trace bool) *ScnResult {
+		var w *world.World
+		var test *vnet.Conn
+		open := false
+		e := vrt.Run(vrt.Config{Horizon: int64(30 * time.Second), Trace: trace, Chooser: ch}, func() {
+			w = world.New(libIP)
+			w.NewServer(libIP)
+			pl := &world.Plugin{W: w, Peer: "P1", Marker: true}
+			opts := []corebgp.PeerOption{corebgp.WithDialerControl(w.DialControl("P1"))}
+			if passive {
+				opts = append(opts, corebgp.WithPassive())
+			}
+			w.NW.OnDial(remAddr, func(int, *net.TCPAddr) vnet.DialOutcome { return vnet.DialOutcome{Kind: vnet.DialRefuse} })
+			if err := w.Server.AddPeer(peerConfig(remIP, 65001, 65002), pl, opts...); err != nil {
+				panic("harness: " + err.Error())
+			}
+			w.Serve(libAddr)
+			vrt.Sleep(time.Second)
+			vrt.WaitQuiescent()
+			t0 := vrt.Cur().Steps()
+			vrt.GoWorld("remote-in", func() {
+				c, err := w.NW.DialIn("10.0.0.2:45000", libAddr)
+				if err != nil {
+					return
+				}
+				test = c
+				r := w.NewRemote(c, "TEST")
+				r.Deadline(5 * time.Second)
+				r.Drain()
+				r.Finish()
+			})
+			vrt.WaitStep(t0 + j)
+			if api == "DeletePeer" {
+				w.DeletePeer(remIP)
+			} else {
+				w.Close()
+			}
+			vrt.WaitQuiescent()
+			if test != nil && test.Peer().Accepted && !test.Peer().IsClosed() {
+				open = true
+			}
+			if api == "DeletePeer" {
+				w.Close()
+			}
+			w.WaitServeDone()
+		})
+		return finishRun("C13", "deleting", w, e, trace, false, func() (string, string) {
+			if open {
+				return "connection-left-open-by-stopping-peer", fmt.Sprintf("a connection from the configured peer that arrived while %s was in progress was accepted by corebgp but neither served nor closed", api)
+			}
+			return monitorCallbacks(w)
+		}, nil)
+	}}
+}
+
 func c13Check(c *harness.Ctx) {
 	cases := c13Cases()
+	{
+		k := 0
+		b := 1
+		stride := 3
+		if c.Thorough() {
+			b, stride = 2, 1
+		}
+		for _, passive := range []bool{true, false} {
+			for _, api := range []string{"DeletePeer", "Close"} {
+				for j := 0; j <= 36; j += stride {
+					k++
+					if !c.Mine(k) {
+						continue
+					}
+					if c.Expired() {
+						return
+					}
+					if !exploreScn(c, "C13", c13DeletingScn(passive, api, j, b)) {
+						return
+					}
+				}
+			}
+		}
+	}
 	nAdmit := 0
 	for i, cs := range cases {
 		if !c.Mine(i) {
@@ -518,6 +602,16 @@ func init() {
 				return
 			}
 			scnReplay("C13", func(name string) *Scn {
+				if strings.HasPrefix(name, "deleting/") {
+					var passive bool
+					var api string
+					var j int
+					parts := strings.Split(name, "/")
+					passive = parts[1] == "passive=true"
+					api = parts[2]
+					fmt.Sscanf(parts[3], "step+%d", &j)
+					return c13DeletingScn(passive, api, j, 3)
+				}
 				var cs c13Case
 				if json.Unmarshal([]byte(name[len("schedule/"):]), &cs) != nil {
 					return nil
